@@ -118,9 +118,10 @@ func genC03(g *Gen, tier string, idx int) *wire.Scenario {
 			switch {
 			case g.P(65):
 				in.WriteString(Pick(g, seqs))
-			case g.P(40) && x.Keymap != "vi-command":
-				// a bound sequence broken off before its last key, by a neutral key (in vi command mode
-				// the pinned tree loses the commands typed after it: left to the other batch)
+			case g.P(40) && x.Keymap == "emacs":
+				// a bound sequence broken off before its last key, by a neutral key (in the vi keymaps
+				// the pinned tree loses commands typed after it, or takes an ESC of the next sequence
+				// for the mode switch: left to the other batch)
 				s := Pick(g, seqs)
 				if strings.Contains(s, "\x1b") && x.Keymap != "emacs" {
 					// a sequence broken off after its ESC leaves vi insert mode: another scenario
